@@ -61,9 +61,11 @@ def aknSpeechContainers : List String :=
    "ministerialStatements", "nationalInterest", "noticesOfMotion", "oralStatements", "papers", "personalStatements",
    "petitions", "pointOfOrder", "prayers", "proceduralMotions", "questions", "resolutions", "rollCall", "writtenStatements"]
 
+def aknSpeechGroups : List String := ["speechGroup", "speech", "question", "answer"]
+
 theorem C02_keyword_tables :
     hierSynonyms.all (fun p => aknHierNames.contains p.2) = true ∧
-    speechSynonyms.all (fun p => aknSpeechContainers.contains p.2) = true := by decide +kernel
+    speechSynonyms.all (fun p => aknSpeechContainers.contains p.2 || aknSpeechGroups.contains p.2) = true := by decide +kernel
 
 mutual
 def hasChildPair (parent child : String) : Xml → Bool
